@@ -72,7 +72,9 @@ def run_bounds(pid, tier):
     # ---- 2. the generated spaces
     spaces = [("MC_Bounds", {"quick": ["MC_Bounds_q1.cfg"], "thorough": ["MC_Bounds_q1.cfg"]}, "bounds", 4),
               ("MC_Layout", {"quick": ["MC_Layout_q3.cfg"], "thorough": ["MC_Layout_q3.cfg", "MC_Layout_t3.cfg"]}, "bounds-layout", 8),
-              ("MC_Vft", {"quick": ["MC_Vft_q1.cfg"], "thorough": ["MC_Vft_t1.cfg"]}, "bounds-vft", 8)]
+              ("MC_Vft", {"quick": ["MC_Vft_q1.cfg"], "thorough": ["MC_Vft_t1.cfg"]}, "bounds-vft", 8),
+              # dependency graphs with by-value cycles and undefined names: several permanently stuck types
+              ("MC_Graph", {"quick": ["MC_Graph_q4.cfg"], "thorough": ["MC_Graph_q1.cfg", "MC_Graph_q4.cfg"]}, "bounds-graph", 8)]
     for module, cfgs, name, workers in spaces:
         d = os.path.join(WORK, "run", f"{name}-{tier}")
         pl = Pipeline(tier, module=module, cfgs=cfgs, name=name, workers=workers,
